@@ -301,3 +301,131 @@ class FakeSelect(object):
             raise RuntimeError("select() would block forever")
         self.clock.sleep(max(timeout, 0) + 0.001)
         return [], [], []
+
+
+# ---------------------------------------------------------------------------
+# chips that honour the CRC enable settings the driver programs (C14 part crcuse)
+# ---------------------------------------------------------------------------
+def crc16(data, reg):
+    for octet in bytes(data):
+        for pos in range(8):
+            bit = (reg ^ (octet >> pos)) & 1
+            reg >>= 1
+            if bit:
+                reg ^= 0x8408
+    return reg
+
+
+def crc_a(data):
+    c = crc16(data, 0x6363)
+    return bytes([c & 255, c >> 8])
+
+
+def crc_b(data):
+    c = ~crc16(data, 0xFFFF) & 0xFFFF
+    return bytes([c & 255, c >> 8])
+
+
+class Pn53xCiu(Pn53x):
+    """PN53x with a CIU register file: InListPassiveTarget switches TxCRCEn /
+    RxCRCEn (bit 7 of CIU_TxMode 6302h / CIU_RxMode 6303h) on, register
+    writes are remembered, InCommunicateThru appends CRC_A to the command when
+    TxCRCEn is set and checks + strips CRC_A of the tag frame when RxCRCEn is
+    set (status 02h on a CRC error), otherwise hands the raw tag frame to the
+    host.  Octets written to CIU_FIFOData are the raw Type 1 Tag command; the
+    answer is put into the FIFO with parity bits (9 bits per octet), the way
+    the PN532/PN533 Type 1 workaround of the driver expects it."""
+
+    def __init__(self, family, prefix=b""):
+        Pn53x.__init__(self, family, prefix)
+        self.reset()
+
+    def reset(self, sel_res=0):
+        self.ciu = {0x6302: 0x80, 0x6303: 0x80}
+        self.sel_res = sel_res
+        self.tag_frame = b""     # what the tag sends, including its CRC
+        self.air_tx = []         # frames as they leave the antenna
+        self.fifo_in = []        # octets written to CIU_FIFOData
+        self.fifo_out = None
+
+    def _fill_fifo(self):
+        bits = ""
+        for b in bytes(self.tag_frame):
+            bits += "{:08b}".format(b)[::-1] + str((bin(b).count("1") + 1) & 1)
+        bits += "0" * (-len(bits) % 8)
+        self.fifo_out = [int(bits[i:i + 8][::-1], 2) for i in range(0, len(bits), 8)]
+
+    def respond(self, code, data):
+        st = b"\x00" if self.family == "pn533" else b""
+        if code == 0x06:
+            addrs = [struct.unpack(">H", data[i:i + 2])[0] for i in range(0, len(data), 2)]
+            vals = []
+            for a in addrs:
+                if a == 0x633A:
+                    if self.fifo_out is None and self.fifo_in:
+                        self._fill_fifo()
+                    vals.append(len(self.fifo_out or []))
+                elif a == 0x6339:
+                    vals.append(self.fifo_out.pop(0) if self.fifo_out else 0)
+                else:
+                    vals.append(self.ciu.get(a, 0))
+            return st + bytes(vals)
+        if code == 0x08:
+            for i in range(0, len(data), 3):
+                a, v = struct.unpack(">HB", data[i:i + 3])
+                if a == 0x6339:
+                    self.fifo_in.append(v)
+                else:
+                    self.ciu[a] = v
+            return b"\x00" if self.family in ("pn533", "rcs956") else b""
+        if code == 0x32:
+            return b""
+        if code == 0x4A:           # InListPassiveTarget 106A: one target, CRC handling on
+            self.ciu[0x6302] = self.ciu.get(0x6302, 0) | 0x80
+            self.ciu[0x6303] = self.ciu.get(0x6303, 0) | 0x80
+            return bytes([1, 1, 0x00, 0x04, self.sel_res, 4, 1, 2, 3, 4])
+        if code == 0x42:           # InCommunicateThru
+            tx = bytes(data)
+            if self.ciu.get(0x6302, 0) & 0x80:
+                tx += crc_a(tx)
+            self.air_tx.append(tx)
+            frame = bytes(self.tag_frame)
+            if self.ciu.get(0x6303, 0) & 0x80:
+                if len(frame) < 3 or crc_a(frame[:-2]) != frame[-2:]:
+                    return b"\x02"
+                return b"\x00" + frame[:-2]
+            return b"\x00" + frame
+        return b"\x00"
+
+
+class Rcs380Crc(Rcs380):
+    """RC-S380 that remembers InSetProtocol: add_crc (key 1) = 1 appends CRC_A
+    to the command, check_crc (key 2) = 1 checks and strips CRC_A of the tag
+    frame (CRC_ERROR status 00000004h otherwise); 0 leaves the frame alone."""
+
+    def __init__(self):
+        Rcs380.__init__(self)
+        self.reset()
+
+    def reset(self):
+        self.proto = {}
+        self.tag_frame = b""
+        self.air_tx = []
+
+    def respond(self, code, data):
+        if code == 0x02:
+            for i in range(0, len(data) - 1, 2):
+                self.proto[data[i]] = data[i + 1]
+            return b"\x00"
+        if code == 0x04:
+            tx = bytes(data[2:])
+            if self.proto.get(1) == 1:
+                tx += crc_a(tx)
+            self.air_tx.append(tx)
+            frame = bytes(self.tag_frame)
+            if self.proto.get(2) == 1:
+                if len(frame) < 3 or crc_a(frame[:-2]) != frame[-2:]:
+                    return bytes([4, 0, 0, 0, 0])
+                return bytes([0, 0, 0, 0, 8]) + frame[:-2]
+            return bytes([0, 0, 0, 0, 8]) + frame
+        return Rcs380.respond(self, code, data)
